@@ -7,7 +7,7 @@ import re
 
 V = os.path.dirname(os.path.dirname(os.path.abspath(__file__)))
 rows = []
-for d in sorted(glob.glob(os.path.join(V, "seeded", "[CX][0-9]*"))):
+for d in sorted(glob.glob(os.path.join(V, "seeded", "[CXM][0-9]*"))):
     sid = os.path.basename(d)
     try:
         meta = json.load(open(os.path.join(d, "meta.json")))
